@@ -15,7 +15,7 @@ func init() {
 		Run:   runC13,
 		Modes: []string{"deadlock"},
 		Meta: propMeta{
-			Explanation: "Static protocol clauses of reactive Variable/Set/Event on all CFG paths: (1) execution lock: every callback Invoke is dominated by a successful LockExecution on the same callback and followed on every path by UnlockExecution (conditional idiom) or sits between LockExecution and a deferred UnlockExecution (fresh-callback idiom), so callbacks of one subscription never overlap and unsubscribe (same mutex) orders after a running callback; (2) writer protocol: the value update and the whole notification loop lie in one critical section of the update-order mutex; inside the value helpers the value change, the update-id increment and the callback-list snapshot lie in one critical section of the value mutex; (3) registration hand-off: OnUpdate registers the callback and takes its execution lock while holding the value mutex, reads the initial value in that section and defers the unlock; (4) unsubscribe removes exactly the list element created by this registration and marks the callback; (5) payload provenance: the mutations handed to subscribers are the diff actually applied by the underlying set (Apply result; for Replace: elements not previously present / elements removed by the underlying Replace); (6) LockExecution skips unsubscribed callbacks and an update id already delivered, records the id, and returns true only while still holding the execution mutex. Also: all writers of one reactive value lock the same mutex field object (a shadowing field on an embedding type is reported); the ds.List core rules of C10 (handle validation, bookkeeping, splice shape) are obligations here too because the subscriber registries are ds.Lists.",
+			Explanation: "Static protocol clauses of reactive Variable/Set/Event on all CFG paths: (1) execution lock: every callback Invoke is dominated by a successful LockExecution on the same callback and followed on every path by UnlockExecution (conditional idiom) or sits between LockExecution and a deferred UnlockExecution (fresh-callback idiom), so callbacks of one subscription never overlap and unsubscribe (same mutex) orders after a running callback; (2) writer protocol: the value update and the whole notification loop lie in one critical section of the update-order mutex; inside the value helpers the value change, the update-id increment and the callback-list snapshot lie in one critical section of the value mutex; (3) registration hand-off: OnUpdate registers the callback and takes its execution lock while holding the value mutex, reads the initial value in that section and defers the unlock; (4) unsubscribe removes exactly the list element created by this registration and marks the callback; (5) payload provenance: the mutations handed to subscribers are the diff actually applied by the underlying set (Apply result; for Replace: elements not previously present / elements removed by the underlying Replace); (6) LockExecution skips unsubscribed callbacks and an update id already delivered, records the id, and returns true only while still holding the execution mutex. Also: all writers of one reactive value lock the same mutex field object (a shadowing field on an embedding type is reported); the ds.List core rules of C10 (handle validation, bookkeeping, splice shape) are obligations here too because the subscriber registries are ds.Lists. The value handed back by variable.updateValue for the callbacks is the value stored.",
 			NotDecided:  "exactly-once/in-order delivery over all interleavings (needs schedule exploration); instance-level lock ordering between different reactive objects",
 			Assumptions: []string{"ds.List (thread-safe) and ds.Set behave as specified by C10/C11"},
 		},
